@@ -100,7 +100,9 @@ func AppendDecimal(b []byte, f float64, dec int) []byte {
 
 	i, n := len(b), LenInt(num)
 	if 0 < dec {
-		if n < dec {
+		if num < 0 && n-1 < dec {
+			n = dec + 1 // number has zero after dot, keep room for the sign
+		} else if 0 < num && n < dec {
 			n = dec // number has zero after dot
 		}
 		n++ // dot
